@@ -74,6 +74,13 @@ CHECKS = {
              'D: get_root_node, next/previous sibling, next/previous leaf, first/last leaf (all overrides), __eq__ identity; '
              + _B + ' (every position of the text incl. outside borders)',
              'get_leaf_for_position, search_ancestor, get_name_of_position bounded only; wf(tree) is a precondition'),
+    'C13': C('4 C13', 'effect obligations (tree unchanged, no shared writes), class-table obligations on the rule registry, VCs of issue construction; bounded contract of iter_errors',
+             'D: no function reachable from iter_errors stores to a tree field or shared state; T: all 31 registered rule classes '
+             'carry code 901/903 with the matching message prefix, call-site signature; VCs: _add_syntax_error, '
+             '_add_indentation_error satisfy add_issue\'s precondition, Issue.__init__; ' + _B + ' (codes, ranges, one per line, '
+             'coverage of error leaves/nodes, determinism)',
+             'totality of the rule classes on recovered trees is bounded only; known findings: f-string error node line, crashes on '
+             'some recovered trees'),
     'C15': C('4 C15', 'RegLan equivalence of the coding-cookie search with PEP 263 (tokenize.cookie_re/blank_re); exhaustive bounded check of split_lines and decoding',
              'D: parso finds a declaration exactly in the CR-free sources where CPython does; B: split_lines on all strings <=4/5 '
              'over 13 separator characters, decoding vs tokenize.detect_encoding on all <=4/5 atom byte strings',
@@ -95,4 +102,11 @@ CHECKS = {
              'T: constructor/dump/slots/import-name protocol over all tree classes; D: __eq__/__hash__, start_pos setter; '
              + _B,
              '_format_dump text and refactor splice bounded only'),
+    'C20': C('4 C20', 'effect obligations (tree unchanged), call-site signature contract, VCs of issue equality and de-duplication; bounded contract of the PEP 8 normalizer',
+             'D: no function reachable from _get_normalizer_issues stores to a tree field; all 46 add_issue call sites pass '
+             '(node, int, str); VCs: Issue.__eq__, Normalizer.add_issue never records a (code, position) pair twice, '
+             'PrefixPart positions; ' + _B + ' with 3 configurations (totality, ranges, duplicates, stability across calls and '
+             'pickling, E292 exactness)',
+             'nullability of the visitor\'s indentation stack is not proved; known findings: not total on recovered trees, with a tab '
+             'indentation config, and at 7 sites on clean trees'),
 }
